@@ -76,6 +76,13 @@ static void make_alphabet() {
     add_build("c_d1_u64t7", with(m_cset(id++, 9), {m_disc({{64, 7}}, 6)}), 1);
     add_build("c_d2", with(m_cset(id++, 1), {m_disc({{1, 7}, {7, 0}}, 7)}), 0, Q);
     add_build("c_t1d2", with(m_cset(id++, 8), {m_tags({{8, 8}}, 10), m_disc({{8, 8}, {0, 1}}, 8)}), 1);
+    // --- sub-item lists copied into the object with Builder::add_item() (call style 3), list sizes on both sides of the 8-byte padding
+    add_build("n_t2c", with(m_obj(IT::node, id++, 5), {m_tags({{7, 8}, {0, 1}}, 17)}), 3, Q);
+    add_build("n_t1c", with(m_obj(IT::node, id++, 6), {m_tags({{1, 0}}, 18)}), 3);
+    add_build("w_t2n3c", with(m_obj(IT::way, id++, 6), {m_tags({{0, 7}, {8, 8}}, 19), m_refs(IT::way_node_list, 3, 11)}), 3);
+    add_build("r_t1f2c", with(m_obj(IT::relation, id++, 7), {m_tags({{7, 1}}, 20), m_members({{8, 2}, {0, 0}}, 11)}), 3, R);
+    add_build("c_t1d2c", with(m_cset(id++, 8), {m_tags({{8, 8}}, 21), m_disc({{8, 8}, {0, 1}}, 12)}), 3);
+    add_build("a_t1o2i1c", with(m_obj(IT::area, id++, 8), {m_tags({{1, 7}}, 22), m_refs(IT::outer_ring, 2, 12), m_refs(IT::inner_ring, 1, 13)}), 3);
     // --- bare lists as top-level items
     add_build("l_tags2", m_list(m_tags({{1, 7}, {8, 0}}, 11)), 0, Q);
     add_build("l_wnl2", m_list(m_refs(IT::way_node_list, 2, 7)), 1);
